@@ -89,19 +89,19 @@ def parse(s):
 
 
 GUARDS = {
-    # suffix of ADT path -> (family, mode)
-    'lock_api::MutexGuard': ('mutex', 'x'),
-    'lock_api::RwLockReadGuard': ('rw', 'r'),
-    'lock_api::RwLockWriteGuard': ('rw', 'w'),
-    'lock_api::RwLockUpgradableReadGuard': ('rw', 'w'),
-    'lock_api::MappedMutexGuard': ('mutex', 'x'),
-    'lock_api::MappedRwLockReadGuard': ('rw', 'r'),
-    'lock_api::MappedRwLockWriteGuard': ('rw', 'w'),
-    'std::sync::MutexGuard': ('mutex', 'x'),
-    'std::sync::RwLockReadGuard': ('rw', 'r'),
-    'std::sync::RwLockWriteGuard': ('rw', 'w'),
-    'std::cell::Ref': ('cell', 'r'),
-    'std::cell::RefMut': ('cell', 'w'),
+    # ADT path -> (family, mode)
+    'lock_api::mutex::MutexGuard': ('mutex', 'x'),
+    'lock_api::mutex::MappedMutexGuard': ('mutex', 'x'),
+    'lock_api::rwlock::RwLockReadGuard': ('rw', 'r'),
+    'lock_api::rwlock::RwLockWriteGuard': ('rw', 'w'),
+    'lock_api::rwlock::RwLockUpgradableReadGuard': ('rw', 'w'),
+    'lock_api::rwlock::MappedRwLockReadGuard': ('rw', 'r'),
+    'lock_api::rwlock::MappedRwLockWriteGuard': ('rw', 'w'),
+    'std::sync::poison::mutex::MutexGuard': ('mutex', 'x'),
+    'std::sync::poison::rwlock::RwLockReadGuard': ('rw', 'r'),
+    'std::sync::poison::rwlock::RwLockWriteGuard': ('rw', 'w'),
+    'core::cell::Ref': ('cell', 'r'),
+    'core::cell::RefMut': ('cell', 'w'),
     'dashmap::mapref::one::Ref': ('dm', 'r'),
     'dashmap::mapref::one::RefMut': ('dm', 'w'),
     'dashmap::mapref::multiple::RefMulti': ('dm', 'r'),
@@ -114,17 +114,15 @@ GUARDS = {
 }
 
 # wrappers through which an owned guard is still owned
-_CARRIERS = ('std::option::Option', 'std::result::Result', 'std::boxed::Box',
-             'std::iter::Filter', 'std::iter::Map', 'std::iter::Enumerate', 'std::iter::Cloned',
-             'std::iter::Peekable', 'std::iter::Take', 'std::iter::Skip', 'std::iter::Zip',
-             'std::iter::FilterMap', 'std::iter::Chain', 'std::iter::Rev')
+_CARRIERS = ('core::option::Option', 'core::result::Result', 'alloc::boxed::Box')
+
+
+def _is_carrier(name):
+    return name in _CARRIERS or name.startswith('core::iter::adapters::')
 
 
 def guard_of(name):
-    for suf, fm in GUARDS.items():
-        if name == suf or name.endswith('::' + suf) or (suf.startswith('lock_api::') and name.endswith(suf)):
-            return fm
-    return None
+    return GUARDS.get(name)
 
 
 def guards_in(t):
@@ -139,7 +137,7 @@ def guards_in(t):
             else:
                 payload = ', '.join(a.text for a in t.args)
             out.append((fam, mode, payload))
-        elif t.name in _CARRIERS:
+        elif _is_carrier(t.name):
             for a in t.args:
                 out.extend(guards_in(a))
     elif t.kind == 'tuple':
